@@ -40,6 +40,41 @@ def boundary_values(g, name, n):
     return g.pick([0, 1, -1, h - 1, h, -h, -h - 1, h + 1, g.int(-h, h - 1), 1 << n, -(1 << n)])
 
 
+# Non-integer fixed-length dtypes: (allowed lengths in bits [None = the length may be omitted], value pool) - clause 2 sends these
+# through every write route with legal and illegal lengths (float not 16/32/64, bool not 1, a length for a variable-length code ...).
+_F = [0.0, 1.0, -0.5, 2.0, 1e10, -1e39, 0.1, 3.5, float('inf')]
+_SMALLF = [0.0, 1.0, -0.5, 2.0, 0.25, 1.5, -1.0, 4.0]
+TYPED = {
+    'float': ((16, 32, 64), _F), 'floatbe': ((16, 32, 64), _F), 'floatle': ((16, 32, 64), _F), 'floatne': ((16, 32, 64), _F),
+    'bfloat': ((16, None), _F), 'bfloatbe': ((16, None), _F), 'bfloatle': ((16, None), _F), 'bfloatne': ((16, None), _F),
+    'bool': ((1, None), [True, False, 1, 0, 2, -1, 3]),
+    'ue': ((None,), [0, 1, 5, 100, -1, -7]), 'uie': ((None,), [0, 1, 5, 100, -1, -7]),
+    'se': ((None,), [0, 1, -5, 100, -1]), 'sie': ((None,), [0, 1, -5, 100, -1]),
+    'p3binary': ((8, None), _SMALLF), 'p4binary': ((8, None), _SMALLF), 'e4m3mxfp': ((8, None), _SMALLF), 'e5m2mxfp': ((8, None), _SMALLF),
+    'e3m2mxfp': ((6, None), _SMALLF), 'e2m3mxfp': ((6, None), _SMALLF), 'e2m1mxfp': ((4, None), _SMALLF),
+    'e8m0mxfp': ((8, None), [1.0, 2.0, 0.5, 4.0, 3.0, 0.3, 0.0, -1.0]), 'mxint': ((8, None), _SMALLF),
+}
+TYPED_LENGTHS = [None, 0, 1, 2, 4, 6, 7, 8, 12, 16, 24, 32, 48, 64, 65, 128, -1, -16]
+TYPED_ROUTES = ('ctor_kw', 'ctor_named', 'token', 'append', 'prepend', 'pack', 'pack_kw', 'build', 'prop_named', 'array_new', 'insert', 'iadd')
+
+
+def typed_value_ok(name, v):
+    if name == 'bool':
+        return v in (0, 1)          # True / False included
+    if name in ('ue', 'uie'):
+        return v >= 0
+    if name == 'e8m0mxfp':
+        import math
+        return v > 0 and math.frexp(v)[0] == 0.5
+    return True
+
+
+def typed_default_length(name):
+    """The length a dtype takes when none is given, or None when a length is mandatory (or there is none to give)."""
+    allowed = TYPED[name][0]
+    return next((x for x in allowed if x is not None), None) if None in allowed else None
+
+
 class EReject(Engine):
     prop = 'C15'
     name = 'E-REJECT'
@@ -136,7 +171,7 @@ class EReject(Engine):
             return self.queue.pop(0) if self.queue else None
         B = self.B
         how = g.pick(['prop', 'prop', 'prop_named', 'slice_int', 'slice_int', 'append_token', 'pack', 'build', 'ctor', 'arr_set', 'arr_append', 'arr_insert',
-                      'arr_extend', 'illegal_length', 'bad_digits', 'token_len_mismatch', 'ctor_strlen', 'digits', 'digits', 'pack_kwlen'])
+                      'arr_extend', 'illegal_length', 'bad_digits', 'token_len_mismatch', 'ctor_strlen', 'digits', 'digits', 'pack_kwlen', 'typed', 'typed', 'typed'])
         tgt = g.pick(['ba', 'bs'])
         obj = self.ba if tgt == 'ba' else self.bs
         n = len(obj)
@@ -171,6 +206,11 @@ class EReject(Engine):
                 invalid = {'hex': ['g', 'G', 'z', 'h'], 'bin': ['2', '9', 'a'], 'oct': ['8', '9', 'a']}[name] + ['+', '-', '.', '/', ':', '\u0663', '\uff11', '\u00b2', '@']
                 digs.insert(g.int(0, len(digs)), g.pick(invalid))
             ev.update(name=name, text=''.join(digs), bad=bad, route=g.pick(['ctor', 'prop', 'token', 'token_len', 'build', 'pack', 'array', 'append']), cls=g.pick(CLASSES))
+        elif how == 'typed':
+            name = g.pick(sorted(TYPED))
+            allowed, pool = TYPED[name]
+            ln = g.pick(list(allowed)) if g.chance(0.5) else g.pick(TYPED_LENGTHS)
+            ev.update(name=name, length=ln, vi=g.int(0, len(pool) - 1), route=g.pick(TYPED_ROUTES), cls=g.pick(CLASSES), pos=g.int(0, n))
         elif how == 'pack_kwlen':
             name = g.pick(['bits', 'hex', 'bin', 'oct', 'uint', 'int'])
             per = {'hex': 4, 'bin': 1, 'oct': 3, 'bits': 1, 'uint': 1, 'int': 1}[name]
@@ -408,6 +448,74 @@ class EReject(Engine):
             else:
                 st, r = call(lambda: C(**{name: text}))
                 new_obj, want_len = (r if st == 'ok' else None), nbits
+        elif how == 'typed':
+            name = ev.get('name') if ev.get('name') in TYPED else 'float'
+            allowed, pool = TYPED[name]
+            ln = ev.get('length')
+            ln = ln if (ln is None or (isinstance(ln, int) and not isinstance(ln, bool) and -64 <= ln <= 256)) else None
+            vi = ev.get('vi', 0)
+            val = pool[vi % len(pool)] if isinstance(vi, int) else pool[0]
+            route = ev.get('route') if ev.get('route') in TYPED_ROUTES else 'ctor_kw'
+            C = getattr(B, ev.get('cls') if ev.get('cls') in CLASSES else 'Bits')
+            variable = allowed == (None,)
+            len_ok = ln in allowed
+            eff = ln if ln is not None else typed_default_length(name)       # bits the result must have (None: self-delimiting code)
+            expect = len_ok and typed_value_ok(name, val)
+            trig = f'typed:{name}:{route}' + ('' if len_ok else '|illegal-length') + ('' if typed_value_ok(name, val) else '|illegal-value')
+            if not len_ok:
+                self.probe('illegal_length')
+            tok_l = f'{name}' if ln is None else f'{name}:{ln}'
+            vtxt = repr(val)
+            if route in ('ctor_named', 'prop_named') and (ln is None or ln < 0):
+                route = 'ctor_kw' if route == 'ctor_named' else 'append'
+            if route == 'ctor_kw':
+                kw = {name: val}
+                if ln is not None:
+                    kw['length'] = ln
+                st, r = call(lambda: C(**kw))
+                new_obj, want_len = (r if st == 'ok' else None), eff
+            elif route == 'ctor_named':
+                st, r = call(lambda: C(**{f'{name}{ln}': val}))
+                new_obj, want_len = (r if st == 'ok' else None), eff
+            elif route == 'token':
+                st, r = call(C, f'{tok_l}={vtxt}')
+                new_obj, want_len = (r if st == 'ok' else None), eff
+            elif route in ('append', 'prepend', 'iadd', 'insert'):
+                changed_key, want_len = tgt_name, (n + eff if eff is not None else None)
+                if route == 'append':
+                    st, r = call(tgt.append, f'{tok_l}={vtxt}')
+                elif route == 'prepend':
+                    st, r = call(tgt.prepend, f'{tok_l}={vtxt}')
+                elif route == 'iadd':
+                    st, r = call(tgt.__iadd__, f'{tok_l}={vtxt}')
+                else:
+                    ps = ev.get('pos', 0)
+                    ps = ps if isinstance(ps, int) and 0 <= ps <= n else 0
+                    st, r = call(tgt.insert, f'{tok_l}={vtxt}', ps)
+            elif route == 'pack':
+                st, r = call(B.pack, tok_l, val)
+                new_obj, want_len = (r if st == 'ok' else None), eff
+            elif route == 'pack_kw':
+                if ln is None:
+                    st, r = call(B.pack, f'{name}=v', v=val)
+                else:
+                    st, r = call(B.pack, f'{name}:n=v', n=ln, v=val)
+                new_obj, want_len = (r if st == 'ok' else None), eff
+            elif route == 'build':
+                st, r = call(lambda: (B.Dtype(name) if ln is None else B.Dtype(name, ln)).build(val))
+                new_obj, want_len = (r if st == 'ok' else None), eff
+            elif route == 'prop_named':
+                changed_key, want_len = tgt_name, eff
+                st, r = call(setattr, tgt, f'{name}{ln}', val)
+            else:   # array_new: an Array of this dtype holding the value, then a second value appended
+                if variable:
+                    expect = False      # a variable-length code is no Array dtype at all
+                    trig = f'typed:{name}:array_new|variable-length-dtype'
+                st, r = call(lambda: B.Array(tok_l.replace(':', ''), [val]))
+                if st == 'ok':
+                    new_obj, want_len = r.data, eff
+            if expect and eff is None and st == 'ok':
+                want_len = None       # self-delimiting code: the length is the codeword's (C10, not judged here)
         elif how == 'pack_kwlen':
             # the length of a token given as a keyword must agree with the value exactly as a literal length must
             name = ev.get('name') if ev.get('name') in ('bits', 'hex', 'bin', 'oct', 'uint', 'int') else 'bits'
